@@ -118,6 +118,7 @@ func runC16(c *fw.Ctx) {
 	}
 	for i := 0; i < c.Pick(100, 2000); i++ {
 		c.Case(func(k *fw.K) { c16Overflow(k) })
+		c.Case(func(k *fw.K) { c16InfiniteFeature(k) })
 	}
 	for i := 0; i < c.Pick(800, 16000); i++ {
 		c.Case(func(k *fw.K) { c16Frozen(k) })
@@ -749,6 +750,15 @@ func c16Accumulate(k *fw.K) {
 			wantW.Data[o] += v[1].Data[o]
 			wantB.Data[o] += v[2].Data[o]
 		}
+		if k.Index%2 == 0 {
+			// a validation / logging pass through the same layer between the back-propagation and the reading of the gradients:
+			// Forward computes an output, it does not touch what the parameters hold
+			if p := call(func() { _, err = fc.Forward(rt.MustLeaf(Shuffled(k.Rng, Unique(k.Rng, []int{2, D}, 0.2, 2)), false)) }); p != nil || err != nil {
+				k.Failf("extra Forward after back-propagation %d: panic=%v err=%v", i+1, p, err)
+				return
+			}
+			k.Count("forward_passes_between_back_propagation_and_gradient_read", 1)
+		}
 		for pi, want := range []*ref.T{wantW, wantB} {
 			gr := (*fc.Weights()[pi].Value).Gradient()
 			if gr == nil {
@@ -871,5 +881,42 @@ func c16Overflow(k *fw.K) {
 			k.Failf("d(sum of outputs)/dx[0][%d] = %v with an overflowing unit in the layer, expected sum_o W[o] = %v", d, v, sw)
 			return
 		}
+	}
+}
+
+// c16InfiniteFeature: one row of the batch holds an infinite feature (a missing value encoded as Inf, an overflowed
+// pre-processing step). Forward still evaluates the formula: that row's outputs are W[o]*(+-Inf) + B[o] = +-Inf (NaN when the
+// row holds both infinities), and every other row - which depends on its own input row only - has its finite values.
+func c16InfiniteFeature(k *fw.K) {
+	r := k.Rng
+	D, O, B := 1+r.Intn(4), 1+r.Intn(3), 2+r.Intn(3)
+	w, b := Shuffled(r, Unique(r, []int{O}, 0.2, 2)), Shuffled(r, Unique(r, []int{O}, 0.2, 2))
+	for o := range w.Data {
+		if r.Intn(2) == 0 {
+			w.Data[o] = -w.Data[o]
+		}
+	}
+	x := Shuffled(r, Unique(r, []int{B, D}, 0.2, 2))
+	row := r.Intn(B)
+	x.Data[row*D+r.Intn(D)] = math.Inf(1)
+	if r.Intn(2) == 0 {
+		x.Data[row*D+r.Intn(D)] = math.Inf(-1)
+	}
+	k.Case = map[string]any{"scenario": "one input row holds an infinite feature", "W": w.Data, "B": b.Data, "x": x.Data, "batch": B, "inputs": D}
+	k.Key("infinite-feature/%d/%d/%d", B, D, O)
+	k.Count("infinite_feature_cases", 1)
+	fc, err := layers.NewFC(&layers.FCConfig{Inputs: D, Outputs: O, Initializers: map[string]layers.Initializer{"Weight": fixedInit{w}, "Bias": fixedInit{b}}})
+	if err != nil {
+		k.Failf("NewFC: %v", err)
+		return
+	}
+	var y tensor.Tensor
+	if p := call(func() { y, err = fc.Forward(rt.MustLeaf(x, r.Intn(2) == 0)) }); p != nil || err != nil || y == nil {
+		k.Failf("Forward on a [%d,%d] batch whose row %d holds an infinite feature: panic=%v err=%v", B, D, row, p, err)
+		return
+	}
+	want, _ := ref.FC(x, w, b)
+	if e := rt.Compare(y, want, 1e-12, 1e-12, nil, 0); e != nil {
+		k.Failf("Forward on a [%d,%d] batch whose row %d holds an infinite feature: %v", B, D, row, e)
 	}
 }
